@@ -547,8 +547,10 @@ fn check_case(cx: &mut Cx, seed: u64)
 		let f = run.file.as_ref().unwrap();
 		format!("ok len={} fnv={:016x}", f.len(), fnv(FNV_INIT, f))
 	}
-	else if run.stderr.contains("Checksum would overwrite existing data") {"err:crc-overwrite".to_owned()}
+	// no file: the wording on stderr is not looked at; whether the PROGRAM assembles is established in-process with the crate
+	// (same directory); a program that assembles and is still refused was refused by the post-processing (checksum word occupied)
 	else if run.stderr.is_empty() {"err:empty".to_owned()}
+	else if matches!(crate::asm::run_real(&dir), Ok(o) if o.close_err.is_none() && o.finalize) {"err:crc-overwrite".to_owned()}
 	else {"asm-failed".to_owned()};
 	cx.report.hit(&format!("outcome: {}", if produced {"file written"} else {&imp}));
 	cx.report.case(if produced {Some(&imp)} else {None});
@@ -631,7 +633,7 @@ fn cli_case(cx: &mut Cx, name: &str)
 	let out = Command::new(repo_bin("trias")).args(&args).current_dir(&dir).output().expect("cannot run trias");
 	let after = dir_snapshot(&dir);
 	let (stdout, stderr) = (String::from_utf8_lossy(&out.stdout).into_owned(), String::from_utf8_lossy(&out.stderr).into_owned());
-	cx.report.case(Some(&format!("{name} {:?} {}", out.status.code(), stdout.trim())));
+	cx.report.case(Some(&format!("{name} {:?} {}", out.status.code(), !stdout.trim().is_empty())));
 	cx.report.hit(&format!("cli {name}: exit status {:?}", out.status.code()));
 	{
 		use std::os::unix::process::ExitStatusExt;
@@ -645,7 +647,8 @@ fn cli_case(cx: &mut Cx, name: &str)
 	if want_stderr && stderr.trim().is_empty() {cx.report.oracle_fail(input.clone(), format!("trias {args:?} failed silently (status {:?}, nothing on stderr)", out.status.code()));}
 	match want_stdout
 	{
-		Some(t) => if stdout.trim() != t || !out.status.success() {cx.report.oracle_fail(input.clone(), format!("trias {args:?}: status {:?}, stdout {stdout:?}; expected success and {t:?}", out.status.code()));},
+		// the wording is free; success must be announced and the exit status must say so
+		Some(_) => if stdout.trim().is_empty() || !out.status.success() {cx.report.oracle_fail(input.clone(), format!("trias {args:?}: status {:?}, stdout {stdout:?}; expected success and an announcement of it", out.status.code()));},
 		None => if !stdout.trim().is_empty() {cx.report.oracle_fail(input.clone(), format!("trias {args:?} reports on stdout although nothing was assembled: {stdout:?}"));},
 	}
 	let _ = std::fs::remove_dir_all(&dir);
